@@ -8,6 +8,7 @@ import numpy.typing
 import numpoly
 
 from ..baseclass import ndpoly, PolyLike
+from ..construct.from_attributes import CFUNCTION_DTYPES
 from ..dispatch import implements
 
 
@@ -78,32 +79,31 @@ def multiply(
         else out
     )
 
-    #    seen = set()
-    #    for expon1, coeff1 in zip(x1.exponents, x1.coefficients):
-    #        for expon2, coeff2 in zip(x2.exponents, x2.coefficients):
-    #            key = (expon1 + expon2 + x1.KEY_OFFSET).ravel()
-    #            key = key.view(f"U{len(expon1)}").item()
-    #            if key in seen:
-    #                out_.values[key] += numpy.multiply(
-    #                    coeff1, coeff2, where=where, **kwargs
-    #                )
-    #            else:
-    #                numpy.multiply(
-    #                    coeff1, coeff2, out=out_.values[key], where=where, **kwargs
-    #                )
-    #            seen.add(key)
-    #
-    #    if out is None:
-    #        out_ = numpoly.clean_attributes(out_)
-
-    numpoly.cmultiply(
-        x1.exponents,
-        x2.exponents,
-        x1.coefficients,
-        x2.coefficients,
-        x1.KEY_OFFSET,
-        out_.values.ravel(),
-    )
+    if (
+        dtype in CFUNCTION_DTYPES
+        and numpy.max(exponents, initial=0) + x1.KEY_OFFSET < 128
+    ):
+        numpoly.cmultiply(
+            x1.exponents,
+            x2.exponents,
+            x1.coefficients,
+            x2.coefficients,
+            x1.KEY_OFFSET,
+            out_.values.ravel(),
+        )
+    else:
+        # The compiled kernel builds keys from single bytes and copies raw
+        # values of a few dtypes only; do the same term by term with numpy.
+        seen = set()
+        for expon1, coeff1 in zip(x1.exponents, x1.coefficients):
+            for expon2, coeff2 in zip(x2.exponents, x2.coefficients):
+                key = (expon1 + expon2 + x1.KEY_OFFSET).astype(numpy.uint32)
+                key = key.view(f"U{len(expon1)}").item()
+                if key in seen:
+                    out_.values[key] += coeff1 * coeff2
+                else:
+                    out_.values[key] = coeff1 * coeff2
+                seen.add(key)
     if out is None:
         out_ = numpoly.clean_attributes(out_)
 
